@@ -38,6 +38,12 @@ def build(H, tier, seed):
     M.vc_mv_delegations(H, methods_binary=['rp', '__and__', '__rand__'],
                         methods_unary=['hodge', 'unhodge', 'polarity', 'unpolarity'])
     T.duality_lemmas(H, tier)
+    from contracts import dispatch_c as D
+    D.vc_binary_chain(H)
+    D.vc_unary_chain(H)
+    from contracts import codegen_glue_c as G
+    G.vc_do_codegen(H)
+    G.vc_func_builder(H)
     for n, pre, goal in LF.all_lemmas():
         H.add_goal('lemma/' + n, pre, goal)
 
